@@ -50,7 +50,7 @@ def main():
             status[nm] = {"ok": True, "changed": changed}
         except Exception as err:  # noqa: BLE001
             msg = f"{type(err).__name__}: {err}"
-            write_if_changed(path, f"-- EXTRACTION FAILED for unit {nm}: {msg}\n")
+            write_if_changed(path, "-- EXTRACTION FAILED for unit " + nm + ": " + " ".join(str(msg).split()) + "\n")
             status[nm] = {"ok": False, "error": msg, "trace": traceback.format_exc()[-2000:]}
     js = json.dumps(status, indent=1, sort_keys=True)
     if a.status:
